@@ -7,6 +7,7 @@ import (
 	"fmt"
 	"math/big"
 	"runtime"
+	"strings"
 	"sync"
 	"sync/atomic"
 
@@ -64,6 +65,9 @@ func runHammer(r *mon.Run, id string, rounds int, build func(rng *gen.Rng, w *mo
 		bulkN := 0
 		if mk := hammerBulk[id]; mk != nil {
 			bulkN, bulk = mk(r, w.Rng)
+			if r.Config == "386" || strings.HasPrefix(r.Config, "race") {
+				bulkN /= 8 // several times slower per call; the volume is reached in the other configurations
+			}
 			w.ClassN(lc+":hammer:bulk-churn-calls", int64(bulkN))
 		}
 		bulkPer := 0
@@ -222,7 +226,7 @@ func famBaseMult(rng *gen.Rng, n int) []hammerOp {
 		sc := scalarFromBig(s)
 		want := oracle.EncodeUncompressed(oracle.MulG(s))
 		ops = append(ops, hammerOp{fmt.Sprintf("ScalarBaseMult(s%d)", i), want, func() []byte { return encPt(new(Point).ScalarBaseMult(sc)) }})
-		if i%3 == 0 {
+		if i%3 == 0 && s.Sign() != 0 { // (0 is a scalar, not a private key)
 			wantK := oracle.EncodeUncompressed(oracle.MulG(s))
 			d := b32(s)
 			ops = append(ops, hammerOp{fmt.Sprintf("NewPrivateKey(d%d).PublicKey()", i), wantK, func() []byte {
@@ -626,26 +630,26 @@ func famParseChurn(rng *gen.Rng, n int) []hammerOp {
 var hammerBulk = map[string]func(r *mon.Run, rng *gen.Rng) (int, func(k int)){
 	"C06": func(r *mon.Run, rng *gen.Rng) (int, func(k int)) {
 		salt := rng.Bytes(16)
-		return r.N(180000, 3000000), func(k int) { _, _ = secp256k1.NewPointFromBytes(bulkCompressed(salt, k)) }
+		return r.N(700000, 6000000), func(k int) { _, _ = secp256k1.NewPointFromBytes(bulkCompressed(salt, k)) }
 	},
 	"C10": func(r *mon.Run, rng *gen.Rng) (int, func(k int)) {
 		salt := rng.Bytes(16)
-		return r.N(160000, 2500000), func(k int) { _, _ = secec.NewPublicKey(bulkCompressed(salt, k)) }
+		return r.N(600000, 5000000), func(k int) { _, _ = secec.NewPublicKey(bulkCompressed(salt, k)) }
 	},
 	"C11": func(r *mon.Run, rng *gen.Rng) (int, func(k int)) {
 		salt := rng.Bytes(16)
-		return r.N(160000, 2500000), func(k int) {
+		return r.N(650000, 5000000), func(k int) {
 			x, _ := secp256k1.NewScalarFromBytes((*[32]byte)(bulkCompressed(salt, k)[1:]))
 			_, _ = secp256k1.RecoverPoint(x, byte(k&3))
 		}
 	},
 	"C12": func(r *mon.Run, rng *gen.Rng) (int, func(k int)) {
 		salt := rng.Bytes(16)
-		return r.N(160000, 2500000), func(k int) { _, _ = secec.ParseASN1PublicKey(oracle.SPKIWrite(bulkCompressed(salt, k))) }
+		return r.N(300000, 3000000), func(k int) { _, _ = secec.ParseASN1PublicKey(oracle.SPKIWrite(bulkCompressed(salt, k))) }
 	},
 	"C13": func(r *mon.Run, rng *gen.Rng) (int, func(k int)) {
 		salt := rng.Bytes(16)
-		return r.N(180000, 3000000), func(k int) { _, _ = bitcoin.NewSchnorrPublicKey(bulkCompressed(salt, k)[1:]) }
+		return r.N(700000, 6000000), func(k int) { _, _ = bitcoin.NewSchnorrPublicKey(bulkCompressed(salt, k)[1:]) }
 	},
 	"C07": func(r *mon.Run, rng *gen.Rng) (int, func(k int)) {
 		// distinct KEYS through the verifier (whatever it remembers per key)
@@ -666,6 +670,15 @@ var hammerBulk = map[string]func(r *mon.Run, rng *gen.Rng) (int, func(k int)){
 			if p, err := secp256k1.NewPointFromBytes(bulkCompressed(salt, k)); err == nil {
 				_ = new(Point).DoubleScalarMultBasepointVartime(u, u, p)
 			}
+		}
+	},
+	"C05": func(r *mon.Run, rng *gen.Rng) (int, func(k int)) {
+		// very many fixed-base multiplications (whatever counts them: re-randomised blinding, a
+		// statistics counter that wraps, a table that is rebuilt every so often)
+		salt := rng.Bytes(16)
+		return r.N(100000, 4600000), func(k int) {
+			s, _ := secp256k1.NewScalarFromBytes((*[32]byte)(bulkCompressed(salt, k)[1:]))
+			_ = new(Point).ScalarBaseMult(s)
 		}
 	},
 	"C04": func(r *mon.Run, rng *gen.Rng) (int, func(k int)) {
